@@ -821,9 +821,31 @@ Definition step (m : machine) (here : list N) : step_result :=
    a run pointer points to the EOF code point, go to the next step. Otherwise, increase pointer by 1 and
    continue with the state machine."  Step 10: "Return url."
 
-   Invariant: here = substring_from (m_pointer m), and 0 <= m_pointer m.
-   After a run the pointer p' may be -1 ("points nowhere": after "decrease pointer by 1" at the first code
-   point, or "start over"); that is not the EOF code point, and the increase makes it 0. *)
+   After a run the pointer may be -1 ("points nowhere": after "decrease pointer by 1" at the first code
+   point, or "start over"); that is not the EOF code point, and the increase makes it 0.
+
+   [run_plain] is the literal reading: every run looks the input up through the pointer. *)
+Definition input_length : Z := Z.of_nat (length input).
+
+Definition points_to_eof (p : Z) : bool := (0 <=? p)%Z && (input_length <=? p)%Z.
+
+Fixpoint run_plain (fuel : nat) (m : machine) : outcome :=
+  match fuel with
+  | O => OutOfFuel
+  | S fuel' =>
+      match step m (substring_from (m_pointer m)) with
+      | SRet u => Done u
+      | SFail u => Failed u
+      | SBug => AssertViolated
+      | SCont m' =>
+          if points_to_eof (m_pointer m') then Done (m_url m')
+          else run_plain fuel' (increase_pointer m')
+      end
+  end.
+
+(* [run] computes the same (lemma [run_eq_run_plain] below) but carries [here] = substring_from (m_pointer m)
+   along: it takes the tail when the pointer moved by +1, keeps it when the pointer did not move, and only
+   otherwise walks the input again. This is the function that is extracted. *)
 Fixpoint run (fuel : nat) (m : machine) (here : list N) : outcome :=
   match fuel with
   | O => OutOfFuel
@@ -843,7 +865,7 @@ Fixpoint run (fuel : nat) (m : machine) (here : list N) : outcome :=
             (* here' = substring_from p' *)
             let here' :=
               if (p' =? p)%Z then here
-              else if (p' =? p + 1)%Z then tl here
+              else if (p' =? p + 1)%Z && (0 <=? p)%Z then tl here
               else substring_from p' in
             match here' with
             | [] => Done (m_url m')                            (* pointer points to the EOF code point *)
@@ -851,6 +873,62 @@ Fixpoint run (fuel : nat) (m : machine) (here : list N) : outcome :=
             end
       end
   end.
+
+Lemma tl_skipn : forall (n : nat) (l : list N), tl (skipn n l) = skipn (S n) l.
+Proof.
+  induction n as [|n IH]; intros l.
+  - destruct l; reflexivity.
+  - destruct l as [|x l]; [reflexivity|]. exact (IH l).
+Qed.
+
+Lemma skipn_nil_iff : forall (n : nat) (l : list N), skipn n l = [] <-> (length l <= n)%nat.
+Proof.
+  intros n l. split; intro H.
+  - pose proof (skipn_length n l) as L. rewrite H in L. cbn [length] in L. lia.
+  - apply skipn_all2. exact H.
+Qed.
+
+Lemma run_eq_run_plain : forall (fuel : nat) (m : machine) (here : list N),
+  here = substring_from (m_pointer m) -> run fuel m here = run_plain fuel m.
+Proof.
+  induction fuel as [|fuel IH]; intros m here Hhere; [reflexivity|].
+  cbn [run run_plain]. rewrite <- Hhere.
+  destruct (step m here) as [m'| | |]; try reflexivity.
+  unfold points_to_eof.
+  destruct (m_pointer m' <? 0)%Z eqn:Eneg.
+  - (* points nowhere *)
+    apply Z.ltb_lt in Eneg.
+    replace (0 <=? m_pointer m')%Z with false by (symmetry; apply Z.leb_gt; exact Eneg).
+    cbn [andb]. apply IH. reflexivity.
+  - apply Z.ltb_ge in Eneg.
+    replace (0 <=? m_pointer m')%Z with true by (symmetry; apply Z.leb_le; exact Eneg).
+    cbn [andb].
+    (* the carried suffix is the suffix at the new pointer *)
+    assert (Hh' : (if (m_pointer m' =? m_pointer m)%Z then here
+                   else if (m_pointer m' =? m_pointer m + 1)%Z && (0 <=? m_pointer m)%Z then tl here
+                   else substring_from (m_pointer m')) = substring_from (m_pointer m')).
+    { destruct (m_pointer m' =? m_pointer m)%Z eqn:E1.
+      - apply Z.eqb_eq in E1. rewrite E1. exact Hhere.
+      - destruct ((m_pointer m' =? m_pointer m + 1)%Z && (0 <=? m_pointer m)%Z) eqn:E2; [|reflexivity].
+        apply andb_true_iff in E2. destruct E2 as [E2 E3].
+        apply Z.eqb_eq in E2. apply Z.leb_le in E3.
+        rewrite Hhere. unfold substring_from. rewrite tl_skipn. rewrite E2.
+        rewrite Z2Nat.inj_add by lia. rewrite Nat.add_1_r. reflexivity. }
+    rewrite Hh'. clear Hh'.
+    destruct (substring_from (m_pointer m')) as [|x next] eqn:Esub.
+    + (* EOF *)
+      unfold substring_from in Esub. apply skipn_nil_iff in Esub.
+      replace (input_length <=? m_pointer m')%Z with true; [reflexivity|].
+      symmetry. apply Z.leb_le. unfold input_length. lia.
+    + replace (input_length <=? m_pointer m')%Z with false.
+      * apply IH. unfold increase_pointer, set_pointer. cbn [m_pointer].
+        unfold substring_from in *.
+        rewrite Z2Nat.inj_add by lia. rewrite Nat.add_1_r. rewrite <- tl_skipn. rewrite Esub. reflexivity.
+      * symmetry. apply Z.leb_gt. unfold input_length.
+        assert (Hn : ~ (length input <= Z.to_nat (m_pointer m'))%nat).
+        { intro Hle. apply skipn_nil_iff in Hle. unfold substring_from in Esub. rewrite Hle in Esub. discriminate. }
+        lia.
+Qed.
 
 End Parser.
 
@@ -892,3 +970,24 @@ Definition basic_url_parse (dta : list N -> option (list N))
   let input := remove_tab_newline input in
   let state := match state_override with Some s => s | None => SchemeStartState end in
   run dta input base state_override (parser_fuel input) (mkM url state [] false false false 0) input.
+
+(* The literal reading of step 9 (every run reads the input through the pointer), and the proof that the
+   extracted function computes exactly that. *)
+Definition basic_url_parse_plain (dta : list N -> option (list N))
+           (input : list N) (base : option surl) (given : option surl) (state_override : option pstate) : outcome :=
+  let '(url, input) :=
+    match given with
+    | None => (new_url, strip_c0_space input)
+    | Some u => (u, input)
+    end in
+  let input := remove_tab_newline input in
+  let state := match state_override with Some s => s | None => SchemeStartState end in
+  run_plain dta input base state_override (parser_fuel input) (mkM url state [] false false false 0).
+
+Theorem basic_url_parse_eq_plain : forall dta input base given state_override,
+  basic_url_parse dta input base given state_override = basic_url_parse_plain dta input base given state_override.
+Proof.
+  intros. unfold basic_url_parse, basic_url_parse_plain.
+  destruct given as [u|]; apply run_eq_run_plain; reflexivity.
+Qed.
+Print Assumptions basic_url_parse_eq_plain.
